@@ -500,6 +500,7 @@ class Data(Field):
 
         assert not (consume_delimiter == False and include_delimiter == True)
         self.consume_delimiter = consume_delimiter  #XXX document this!
+        self.delimiter_slot = None
         self.is_fixed = isinstance(byte_count, int)
 
     @exec_once
@@ -539,6 +540,11 @@ class Data(Field):
 
             elif hasattr(self.until_marker, 'search'):
                 self.unpack = self._unpack_with_regexp_marker
+                if not self.include_delimiter:
+                    # the delimiter found by the regexp is not part of the
+                    # value: each packet remembers its own to pack it back
+                    self.delimiter_slot = "_delimiter_of_%s" % self.field_name
+                    slots.append(self.delimiter_slot)
 
             else:
                 assert False
@@ -557,7 +563,11 @@ class Data(Field):
         )
 
     def pack(self, pkt, fragments, **k):
-        r = getattr(pkt, self.field_name) + self.delimiter_to_be_included
+        delimiter = self.delimiter_to_be_included
+        if self.delimiter_slot is not None:
+            delimiter = getattr(pkt, self.delimiter_slot, delimiter)
+
+        r = getattr(pkt, self.field_name) + delimiter
         fragments.append(r)
         return fragments
 
@@ -648,7 +658,12 @@ class Data(Field):
                     count = match.start()
                     if self.consume_delimiter:
                         extra_count = match.end() - count
-                    self.delimiter_to_be_included = match.group()
+
+                    try:
+                        setattr(pkt, self.delimiter_slot, match.group())
+                    except AttributeError:
+                        # a field selected at run time has no slot of its own
+                        self.delimiter_to_be_included = match.group()
             else:
                 assert False
 
